@@ -742,6 +742,8 @@ def np_exp(ex, x):
     def f(v):
         if isinstance(v, Cx):
             m = uf('exp', v.re) if not (is_conc_num(v.re) and v.re == 0) else Fraction(1)
+            if is_conc_num(v.im) and v.im == 0:
+                return Cx(m, Fraction(0))
             return Cx(s_mul(m, uf('cos', v.im)), s_mul(m, uf('sin', v.im)))
         if is_conc_num(v) and v == 0:
             return Fraction(1)
